@@ -295,7 +295,7 @@ func devLiveness(r *mc.Run, cfgs []NamedConfig, cov map[string]any, only string)
 		silent    bool
 	}
 	// bounds are iterated: the smaller one is completed before the larger one is attempted
-	bounds := []bound{{1, 1, false, false}, {1, 2, false, true}, {1, 2, false, false}, {2, 2, true, true}}
+	bounds := []bound{{1, 1, false, false}, {1, 2, false, true}, {2, 2, true, true}, {1, 2, false, false}}
 	if !r.Quick() {
 		bounds = []bound{{1, 1, false, false}, {1, 2, false, true}, {1, 2, false, false}, {2, 1, false, false}, {2, 2, false, true}, {2, 2, false, false}, {2, 3, false, true}, {3, 2, true, true}}
 	}
